@@ -323,7 +323,7 @@ def Obj.setVal (o : Obj) (c : Nat) (v : Option CVal) : Obj :=
   { o with vals := fun k => if k = c then v else o.vals k }
 
 /-- `hasattr(self.__class__, name)`: a column has a class-level property -/
-def Klass.hasAttr (k : Klass) (c : Nat) : Bool := decide (c < k.ncols) || k.classAttr c
+def Klass.hasAttr (k : Klass) (c : Nat) : Bool := Nat.blt c k.ncols || k.classAttr c
 
 /-! ### expressions -/
 
@@ -421,8 +421,8 @@ def Cond.eval (st : St G) : Cond → R Bool
   | .columnsTruthy => .ok (st.w.k.ncols != 0)
   | .inDict ke d => (ke.eval st).bind fun v => (ofOpt (nameOf v)).bind fun c =>
       (ofOpt (st.getDict d)).bind fun l => .ok (dhas c l)
-  | .inColumns ke => (ke.eval st).bind fun v => (ofOpt (nameOf v)).bind fun c => .ok (decide (c < st.w.k.ncols))
-  | .inPlainSetters ke => (ke.eval st).bind fun v => (ofOpt (nameOf v)).bind fun c => .ok (decide (c < st.w.k.ncols))
+  | .inColumns ke => (ke.eval st).bind fun v => (ofOpt (nameOf v)).bind fun c => .ok (Nat.blt c st.w.k.ncols)
+  | .inPlainSetters ke => (ke.eval st).bind fun v => (ofOpt (nameOf v)).bind fun c => .ok (Nat.blt c st.w.k.ncols)
   | .hasattrCls ke => (ke.eval st).bind fun v => (ofOpt (nameOf v)).bind fun c => .ok (st.w.k.hasAttr c)
   | .lenNe d n => (ofOpt (st.getDict d)).bind fun l => .ok (l.length != n)
 
